@@ -307,9 +307,9 @@ func RunOptions(fam *Family, tier, rule string) int {
 		A          *proj  `json:"a"`
 		B          *proj  `json:"b"`
 		BaseBuilds bool   `json:"basebuilds"`
-		si  int
-		a   *run
-		b   *run
+		si         int
+		a          *run
+		b          *run
 	}
 	var evs []*evt
 	var events []any
